@@ -74,6 +74,11 @@ def check(ctx):
     check_chunk_protocol(ctx, rule='R-SAMEVAL/chunk-protocol')
     check_write_back(ctx)
     check_per_cell_loop(ctx)
+    # the readers that cut a chunk into rows do not place values by
+    # pointer scatter (a cell's row would then depend on whether an
+    # earlier cell of the chunk is empty)
+    from .C05 import check_scatter
+    check_scatter(ctx)
 
 
 def check_cell_selection(ctx):
